@@ -1,4 +1,4 @@
-import JobShopModel.Queries
+import JobShopModel.Graph
 /-!
 # Feature observers, composite observer, reward observers: the feature world
 
@@ -21,18 +21,18 @@ deriving Repr, DecidableEq, Inhabited
 
 inductive FKind
   | isReady | earliestStart | duration | isScheduled | positionInJob | remainingOps | isCompleted
-  | composite | unscheduled | history | makespanReward | idleReward
+  | composite | unscheduled | history | makespanReward | idleReward | residual
 deriving Repr, DecidableEq, Inhabited
 
 /-- `_supported_feature_types` (in the order of the class attribute, which is the default order) -/
 def FKind.supported : FKind → List FT
   | .positionInJob => [.operations]
   | .remainingOps => [.machines, .jobs]
-  | .unscheduled | .history | .makespanReward | .idleReward => []
+  | .unscheduled | .history | .makespanReward | .idleReward | .residual => []
   | _ => [.operations, .machines, .jobs]
 
 def FKind.isFeature : FKind → Bool
-  | .unscheduled | .history | .makespanReward | .idleReward => false
+  | .unscheduled | .history | .makespanReward | .idleReward | .residual => false
   | _ => true
 
 structure FObs where
@@ -53,6 +53,11 @@ structure FObs where
   hist : List SOp := []
   rewards : List Int := []
   curMakespan : Int := 0
+  /-- `GraphUpdater.job_shop_graph` / `initial_job_shop_graph`, and the two options of the residual updater -/
+  graph : Graph := {}
+  graph0 : Graph := {}
+  rmMach : Bool := true
+  rmJob : Bool := true
 deriving Repr, DecidableEq, Inhabited
 
 structure FWorld where
@@ -227,6 +232,30 @@ def compositeCols (heap : List FObs) (parts : List Nat) : List (FT × List (List
   let order := obs.foldl (fun (acc : List FT) o => o.cols.foldl (fun acc tc => if acc.contains tc.1 then acc else acc ++ [tc.1]) acc) []
   order.map fun ft => (ft, (obs.flatMap fun o => (o.cols.filter (·.1 == ft)).flatMap (·.2)))
 
+/-- `if <cond> and not graph.is_removed(node): graph.remove_node(node)` -/
+def removeIf (g : Graph) (nid : Nat) (cond : Bool) : Graph :=
+  if cond && !(g.removed.getD nid true) then g.removeNode nid else g
+
+/-- `remove_completed_operations(graph, completed_operations)` -/
+def removeCompletedOps (I : Instance) (g : Graph) (refs : List OpRef) : Graph :=
+  refs.foldl (fun g r => removeIf g (opId I r) true) g
+
+/-- `_remove_completed_machine_nodes` / `_remove_completed_job_nodes`: for every entity whose completion flag is 1,
+remove its node if it is still there -/
+def removeFlagged (g : Graph) (flags : List Int) (kind : Nat → NodeKind) : Graph :=
+  flags.zipIdx.foldl (fun g (fm : Int × Nat) => removeIf g (nodeIdOf g (kind fm.2)) (fm.1 == 1)) g
+
+def hasMachineNodes (g : Graph) : Bool := g.nodes.any fun k => match k with | .machine _ => true | _ => false
+def hasJobNodes (g : Graph) : Bool := g.nodes.any fun k => match k with | .job _ => true | _ => false
+
+/-- `ResidualGraphUpdater.update`: remove the nodes of completed operations, then the machine nodes and the
+job nodes whose completion flag (read from the `IsCompletedObserver` it holds) is 1 -/
+def residualUpdate (c : Cfg) (s : State) (heap : List FObs) (o : FObs) : Graph :=
+  let ic : FObs := match o.parts.head? with | some i => heap.getD i default | none => default
+  let g1 := removeCompletedOps c.I o.graph (completedPure c s)
+  let g2 := if o.rmMach && hasMachineNodes g1 then removeFlagged g1 (ic.col .machines) .machine else g1
+  if o.rmJob && hasJobNodes g2 then removeFlagged g2 (ic.col .jobs) .job else g2
+
 /-! ## world-level operations -/
 
 /-- `dispatcher.create_or_get_observer(cls, condition=has these feature types)` lookup part -/
@@ -293,7 +322,7 @@ def FWorld.construct (w : FWorld) (kind : FKind) (fts : Option (List FT)) : FWor
       | _ => { kind := kind }
     let (w', id) := w.push o
     (w', some id)
-  | .composite => (w, none)   -- composites are built with `constructComposite`
+  | .composite | .residual => (w, none)   -- built with `constructComposite` / `constructResidual`
   | _ =>
     match resolveFts kind fts with
     | none => (w, none)
@@ -322,6 +351,26 @@ def FWorld.constructComposite (w : FWorld) (parts : Option (List Nat)) : FWorld 
   let o : FObs := { kind := .composite, parts := ps }
   let (w1, id) := w.push o
   (w1.setObs id { o with cols := compositeCols w1.heap ps, fts := (compositeCols w1.heap ps).map (·.1) }, some id)
+
+/-- `create_or_get_observer(IsCompletedObserver, condition=has all of these feature types, feature_types=…)` -/
+def FWorld.getIsCompleted (w : FWorld) (need : List FT) : FWorld × Nat :=
+  match w.findObs .isCompleted need with
+  | some id => (w, id)
+  | none =>
+    let base : FObs := ({ kind := .isCompleted, fts := need } : FObs).zeroed w.cfg.I
+    let (w1, id) := w.push base
+    (w1.isCompletedInit id, id)
+
+/-- `ResidualGraphUpdater(dispatcher, graph, remove_completed_machine_nodes=…, remove_completed_job_nodes=…)`:
+the `IsCompletedObserver` is obtained *before* the updater subscribes itself -/
+def FWorld.constructResidual (w : FWorld) (g : Graph) (rmMach rmJob : Bool) : FWorld × Option Nat :=
+  if w.subs.any (fun id => (w.heap[id]?.map (·.kind)) == some FKind.residual) then (w, none) else
+  let need := (if rmMach then [FT.machines] else []) ++ (if rmJob then [FT.jobs] else [])
+  let (w1, parts) := if need.isEmpty then (w, []) else
+    let r := w.getIsCompleted need
+    (r.1, [r.2])
+  let (w2, id) := w1.push { kind := .residual, parts := parts, graph := g, graph0 := g, rmMach := rmMach, rmJob := rmJob }
+  (w2, some id)
 
 /-- `observer.update(x)` on observer `id`; may rewrite other observers -/
 def FWorld.callUpdate (w : FWorld) (x : SOp) (id : Nat) : FWorld :=
@@ -352,6 +401,7 @@ def FWorld.callUpdate (w : FWorld) (x : SOp) (id : Nat) : FWorld :=
       let before := (s.sched.getD x.machine []).dropLast
       let idle := match before.getLast? with | some l => x.start - l.end_ | none => x.start
       w.setObs id { o with rewards := o.rewards ++ [-idle] }
+    | .residual => w.setObs id { o with graph := residualUpdate c s w.heap o }
 
 /-- `RemainingOperationsObserver.reset` (after the fix: the helper is reset first) -/
 def FWorld.resetRemaining (w : FWorld) (id : Nat) : FWorld :=
@@ -389,6 +439,7 @@ def FWorld.callReset (w : FWorld) (id : Nat) : FWorld :=
     | .history => w.setObs id { o with hist := [] }
     | .makespanReward => w.setObs id { o with rewards := [], curMakespan := makespan s }
     | .idleReward => w.setObs id { o with rewards := [] }
+    | .residual => w.setObs id { o with graph := o.graph0 }
 
 /-- `Dispatcher.dispatch` on the feature world (the subscriber list is iterated as it is when the loop starts) -/
 def FWorld.dispatch (w : FWorld) (j p : Nat) (m : Option Int) : FWorld × Bool :=
@@ -413,6 +464,7 @@ inductive FEv
   | reset
   | construct (k : FKind) (fts : Option (List FT))
   | composite (parts : Option (List Nat))
+  | residual (b : Builder) (rmMach rmJob : Bool)
 deriving Repr, DecidableEq, Inhabited
 
 def FWorld.step (w : FWorld) : FEv → FWorld
@@ -420,6 +472,7 @@ def FWorld.step (w : FWorld) : FEv → FWorld
   | .reset => w.reset
   | .construct k fts => (w.construct k fts).1
   | .composite parts => (w.constructComposite parts).1
+  | .residual b rmMach rmJob => (w.constructResidual (build b w.cfg.I) rmMach rmJob).1
 
 def FWorld.run (c : Cfg) (evs : List FEv) : FWorld := evs.foldl FWorld.step (FWorld.init c)
 
